@@ -84,6 +84,7 @@ func show16(u []uint16) string { return harness.JSString16(u) }
 //	ofall  {toString: logs, returns an object; valueOf: logs, returns string U}
 //	othrow {toString, valueOf: log and throw RangeError}
 //	obad   {toString, valueOf: log and return objects}  (ToPrimitive must throw TypeError, 8.12.8)
+//	oplain {} (ToString "[object Object]", ToNumber NaN, nothing logged)
 //	arr    array literal of A (elements: str, num, null, undef)
 type val struct {
 	K string   `json:"k"`
@@ -128,7 +129,7 @@ func jsNum(l string) string {
 
 func (v val) isObject() bool {
 	switch v.K {
-	case "sobj", "sobjts", "ots", "ovo", "ofall", "othrow", "obad", "arr":
+	case "sobj", "sobjts", "ots", "ovo", "ofall", "othrow", "obad", "arr", "oplain":
 		return true
 	}
 	return false
@@ -171,6 +172,8 @@ func (v val) render(tag string) string {
 		return "__othrow(" + q + ")"
 	case "obad":
 		return "__obad(" + q + ")"
+	case "oplain":
+		return "({})"
 	case "arr":
 		p := make([]string, len(v.A))
 		for i, e := range v.A {
@@ -221,6 +224,8 @@ func (c *conv) toString(v val, tag string) []uint16 {
 		c.note(tag, "t")
 		c.note(tag, "v")
 		panic(jsThrow{"TypeError"})
+	case "oplain": // Object.prototype.toString (15.2.4.2)
+		return asc("[object Object]")
 	case "arr": // Array.prototype.toString -> join(",") (15.4.4.2, 15.4.4.5)
 		var out []uint16
 		for i, e := range v.A {
@@ -269,6 +274,8 @@ func (c *conv) toNumber(v val, tag string) float64 {
 		c.note(tag, "v")
 		c.note(tag, "t")
 		panic(jsThrow{"TypeError"})
+	case "oplain": // valueOf returns the object, toString gives "[object Object]": NaN
+		return math.NaN()
 	case "arr":
 		return es5.StringToNumber(c.toString(v, tag))
 	}
@@ -363,6 +370,28 @@ func genStringy(t *rapid.T, s []uint16, label string) val {
 	default:
 		return rapid.SampledFrom([]val{{K: "bool", N: "true"}, {K: "bool", N: "false"}, {K: "null"}, {K: "undef"}, {K: "othrow"}, {K: "obad"}}).Draw(t, label+"-odd")
 	}
+}
+
+// imageVals: argument values whose ToString is a short text ("undefined", "null", "NaN", "0",
+// "[object Object]", "true", …). A receiver that CONTAINS such a text tells "the argument was treated
+// as undefined / absent" from "the argument was converted to a string and used literally".
+var imageVals = []val{{K: "undef"}, {K: "undef"}, {K: "undef"}, {K: "null"}, {K: "num", N: "NaN"}, {K: "num", N: "0e+00"}, {K: "num", N: "-0"}, {K: "num", N: "1e+00"},
+	{K: "num", N: "-1e+00"}, {K: "num", N: "Infinity"}, {K: "num", N: "1.2e+01"}, {K: "bool", N: "true"}, {K: "bool", N: "false"}, {K: "oplain"},
+	{K: "arr", A: []val{{K: "num", N: "1e+00"}, {K: "num", N: "2e+00"}}}, {K: "arr", A: []val{{K: "null"}, {K: "undef"}}}, {K: "str", U: []uint16{'a', 'b'}}}
+
+// genImageString draws one of imageVals and a string that contains its ToString image once or
+// twice, surrounded by 0–3 units of the small alphabets (non-ASCII included, so that positions count).
+func genImageString(t *rapid.T) ([]uint16, val) {
+	v := rapid.SampledFrom(imageVals).Draw(t, "image-val")
+	img := (&conv{}).toString(v, "i")
+	out := append([]uint16{}, genUnits(3).Draw(t, "image-pre")...)
+	out = append(out, img...)
+	if rapid.IntRange(0, 3).Draw(t, "image-twice") == 0 {
+		out = append(out, genUnits(2).Draw(t, "image-mid")...)
+		out = append(out, img...)
+	}
+	out = append(out, genUnits(3).Draw(t, "image-post")...)
+	return out, v
 }
 
 // genRecv draws a receiver. Its ToString is known to the generator through (*conv).toString.
